@@ -248,7 +248,7 @@ def norm_value(keyword, v):
     if multi:
         if v is None:
             return []
-        if isinstance(v, (list, tuple)):
+        if not isinstance(v, (str, bytes, int)) and hasattr(v, "__iter__"):  # list, tuple, pydicom MultiValue
             return [int(x) for x in v]
         return [int(v)]
     if v is None:
